@@ -112,6 +112,25 @@ func coldVariant(cfg *Config) int {
 	return n - 1
 }
 
+// ColdRotation is 0 in the primary process and N in the process variant "#coldconcN": cold-start families use it
+// to rotate which function, or which input, makes the first library call of the process.
+func (c *Config) ColdRotation() int {
+	v := coldVariant(c)
+	if half := ColdVariants(c.Tier) / 2; v >= half {
+		return v - half + 1
+	}
+	return 0
+}
+
+// ColdVariants is the number of "#coldconcN" process variants of a tier. The first half are purely concurrent
+// first-use processes; the second half first run the Serial "cold-start" family with rotation 1, 2, ...
+func ColdVariants(tier string) int {
+	if tier == "thorough" {
+		return 20
+	}
+	return 10
+}
+
 // RunChild executes the property's families in this process and writes the result file.
 func RunChild(p *Prop, cfg *Config) int {
 	start := time.Now()
@@ -290,6 +309,22 @@ func RunChild(p *Prop, cfg *Config) int {
 					if idx := r + cold*rounds; idx < fams[fi].N {
 						jobs = append(jobs, job{fi, idx})
 					}
+				}
+			}
+		}
+		// the second half of the variants first run the property's Serial "cold-start" family, which rotates WHICH
+		// function (or which input) makes the first call of the process by Config.ColdRotation(); the first half are
+		// purely concurrent
+		if cfg.ColdRotation() > 0 {
+			for fi := range fams {
+				if fams[fi].Serial && fams[fi].Name == "cold-start" {
+					runtime.LockOSThread()
+					serialW.tid.Store(int64(syscall.Gettid()))
+					for idx := 0; idx < fams[fi].N; idx++ {
+						serialW.runCase(&fams[fi], idx)
+					}
+					serialW.tid.Store(0)
+					runtime.UnlockOSThread()
 				}
 			}
 		}
